@@ -41,13 +41,28 @@ def _history(eng, repo, n, prefix="", existing=()):
     return commits
 
 
-def h_commit_graph(eng, stale=False, graft_on=None, n=4):
+def h_commit_graph(eng, stale=False, graft_on=None, n=4, octopus=False):
     """with a commit-graph file present (fresh, or stale after the history continued) parents, merge bases and
     fast-forward answers equal those without it; grafts and shallow boundaries keep priority over the graph"""
     d = scratch("c14")
     try:
         r = Repo.init_bare(d)
-        cs = _history(eng, r, n)               # n=4 incl. octopus merges (3 parents) for the extra-edge chunk
+        if octopus:
+            # c0..c2 arbitrary, c3 = octopus merge of all three, c4/c5 with symbolic parents among c0..c4 (a second and
+            # third octopus merge possible): exercises the extra-edge list with several merges in it
+            class _F:
+                def __getattr__(self, nm):
+                    return getattr(eng, nm)
+
+                def bool(self, name):
+                    if name in ("c3_p0", "c3_p1", "c3_p2"):
+                        return True
+                    if name in ("c1_p0", "c2_p0", "c2_p1"):
+                        return False
+                    return eng.bool(name)
+            cs = _history(_F(), r, n)
+        else:
+            cs = _history(eng, r, n)           # n=4 incl. octopus merges (3 parents) for the extra-edge chunk
         r.refs[b"refs/heads/main"] = cs[-1].id
         r.object_store.write_commit_graph()
         if stale:
@@ -60,7 +75,7 @@ def h_commit_graph(eng, stale=False, graft_on=None, n=4):
         r2.object_store._commit_graph = None
         eng.prove(r1.object_store.get_commit_graph() is not None, "the commit-graph file is picked up")
         graft_on = len(cs) if graft_on is None else graft_on
-        shallow_on = eng.choice("shallow_on", len(cs) + 1) if graft_on == len(cs) else len(cs)
+        shallow_on = eng.choice("shallow_on", len(cs) + 1) if (graft_on == len(cs) and not octopus) else len(cs)
         grafts = {cs[graft_on].id: [cs[0].id]} if graft_on < len(cs) else {}
         shallows = [cs[shallow_on].id] if shallow_on < len(cs) else []
         p1 = ParentsProvider(r1.object_store, grafts=grafts, shallows=shallows)
@@ -167,13 +182,16 @@ def checks(tier):
     q = ("quick", "thorough")
     return [
         KCheck("C14a.commit_graph", h_commit_graph,
-               parts=[{"stale": False, "graft_on": g} for g in (None, 1, 2, 3)] + [{"stale": True, "n": 3, "graft_on": g} for g in (None, 2)],
+               parts=[{"stale": False, "graft_on": g} for g in (None, 1, 2, 3)] + [{"stale": True, "n": 3, "graft_on": g} for g in (None, 2)] +
+                     [{"octopus": True, "n": 5, "graft_on": None}],
                encoded=["dulwich.commit_graph.generate_commit_graph/write_commit_graph/read_commit_graph/CommitGraph._parse_chunks",
                         "dulwich.object_store.DiskObjectStore.write_commit_graph/get_commit_graph",
                         "dulwich.repo.ParentsProvider.get_parents", "dulwich.graph.find_merge_base/can_fast_forward"],
                bounds="every history of 4 commits (all parent sets incl. 3-parent octopus merges); commit-graph written by dulwich, "
                       "fresh, or stale (3 commits + one more with any parents added afterwards); a graft on one of several commits or a "
-                      "shallow boundary on any commit; every pair of query commits when neither is set",
+                      "shallow boundary on any commit; every pair of query commits when neither is set; plus histories of 5 commits with "
+                      "an octopus merge c3 of three roots and c4 with any parents among the earlier ones (two octopus merges in one "
+                      "extra-edge list)",
                outside="commit-graph files written by C git; split commit-graph chains; more than 4+1 commits", tiers=q),
         KCheck("C14b.ewah_words", h_ewah_words, parts=[{"n": n} for n in (1, 2, 3, 4)],
                encoded=["dulwich.bitmap._encode_ewah_words"],
@@ -190,4 +208,86 @@ def checks(tier):
                       "one conditional set / create / delete / read with every argument combination, run with and without "
                       "pack_refs(all=True) before it",
                outside="the multi-pack-index dimension is decided in C10c (stale index after repack/gc); bitmaps: see not covered", tiers=q),
+    ]
+
+
+# ---------------------------------------------------------------------------------------------
+# (f) a multi-pack-index that was built for other packs (copied from another repository, or left over) is not trusted
+_b14f = checks
+
+
+def h_foreign_midx(eng):
+    """repository A (objects in 1-2 packs, some loose) gets the multi-pack-index of repository B, which has the same or a
+    different number of packs and possibly shares objects: every lookup / containment answer about A's and B's objects
+    is the same as without the file"""
+    from vf.symrepo import build_graph
+    da, db = scratch("c14fa"), scratch("c14fb")
+    try:
+        ra, rb = Repo.init_bare(da), Repo.init_bare(db)
+        npa = 1 + eng.choice("packs_in_A_minus_1", 2)
+        npb = 1 + eng.choice("packs_in_B_minus_1", 2)
+        share = bool(eng.bool("B_shares_objects_with_A"))
+
+        def fill(repo, npacks, salt):
+            objs = []
+            for i in range(npacks):
+                b = Blob.from_string(b"%s blob %d\n" % (salt, i))
+                t = Tree()
+                t.add(b"f", 0o100644, b.id)
+                repo.object_store.add_objects([(b, None), (t, None)])
+                objs += [b, t]
+            return objs
+        oa = fill(ra, npa, b"A")
+        ob = fill(rb, npb, b"A" if share else b"B")
+        extra = Blob.from_string(b"loose in A\n")
+        ra.object_store.add_object(extra)
+        rb.object_store.write_midx()
+        ra.close()
+        rb.close()
+        import shutil as _sh
+        if eng.bool("copy_foreign_midx"):
+            _sh.copy(os.path.join(db, "objects", "pack", "multi-pack-index"), os.path.join(da, "objects", "pack", "multi-pack-index"))
+        else:
+            # A's own index, then one more pack is added behind its back (stale, fewer packs than present)
+            r = Repo(da)
+            r.object_store.write_midx()
+            b = Blob.from_string(b"added after the midx\n")
+            r.object_store.add_objects([(b, None)])
+            oa.append(b)
+            r.close()
+        r1, r2 = Repo(da), Repo(da)
+        r2.object_store._use_midx = False
+        r2.object_store._midx = None
+        probes = [o.id for o in oa + ob + [extra]] + [b"f" * 40]
+        for s in probes:
+            a1, a2 = s in r1.object_store, s in r2.object_store
+            eng.prove(a1 == a2, f"'in' answers the same with and without the multi-pack-index for {s[:8]!r} ({a1} vs {a2}; packs A={npa} B={npb} share={share})")
+            c1, c2 = r1.object_store.contains_packed(s), r2.object_store.contains_packed(s)
+            eng.prove(c1 == c2, f"contains_packed the same for {s[:8]!r} ({c1} vs {c2}; packs A={npa} B={npb} share={share})")
+            def get(st):
+                try:
+                    return st.get_raw(s)
+                except KeyError:
+                    return "missing"
+                except Exception as e:
+                    return f"error {type(e).__name__}"
+            g1, g2 = get(r1.object_store), get(r2.object_store)
+            eng.prove(g1 == g2, f"get_raw the same for {s[:8]!r} ({str(g1)[:40]} vs {str(g2)[:40]}; packs A={npa} B={npb} share={share})")
+        r1.close()
+        r2.close()
+    finally:
+        shutil.rmtree(da, ignore_errors=True)
+        shutil.rmtree(db, ignore_errors=True)
+
+
+def checks(tier):
+    q = ("quick", "thorough")
+    return _b14f(tier) + [
+        KCheck("C14f.foreign_midx", h_foreign_midx,
+               encoded=["dulwich.object_store.DiskObjectStore.contains_packed/__contains__/get_raw/get_midx/_get_pack_by_name",
+                        "dulwich.midx.MultiPackIndex.object_offset/load_midx"],
+               bounds="repository A with 1-2 packs and a loose object receives the multi-pack-index written for repository B (1-2 "
+                      "packs, same or different pack count, sharing A's objects or not), or keeps its own index while a pack is "
+                      "added afterwards; 'in', contains_packed and get_raw for every object of A and B and an absent name",
+               outside="midx files written by C git; bitmap/reverse-index chunks", tiers=q),
     ]
